@@ -10,6 +10,7 @@ import (
 	"math/big"
 	"testing"
 
+	ccpb "github.com/google/go-tdx-guest/proto/checkconfig"
 	"github.com/google/go-tdx-guest/verify"
 	"pgregory.net/rapid"
 	"verifharness/gen"
@@ -20,6 +21,7 @@ type crlPlan struct {
 	outcome   string // "ok", "error", "empty", "garbage", "pem", "other-crl"
 	revoked   [][]byte
 	revokedAt []time.Time
+	reasons   []int
 	contains  map[string]bool // which of leaf/int/tcb/qe serials are listed
 	header    string          // pck only: "ok", "missing", "empty", "one-cert", "pki-b"
 }
@@ -143,6 +145,17 @@ func TestC05(t *testing.T) {
 		root := crlPlan{signer: rapid.SampledFrom(signers).Draw(t, "rootSigner")}
 		root.revoked, root.contains = drawRevoked(t, "root", targets, s)
 		root.revokedAt = datesFor(len(root.revoked))
+		// reason codes are informational too: unspecified .. aACompromise incl. removeFromCRL(8) and certificateHold(6)
+		reasonsFor := func(n int) []int {
+			out := make([]int, n)
+			for i := range out {
+				if s.Intn(2) == 0 {
+					out[i] = []int{1, 2, 3, 4, 5, 6, 8, 8, 9, 10}[s.Intn(10)]
+				}
+			}
+			return out
+		}
+		pck.reasons, root.reasons = reasonsFor(len(pck.revoked)), reasonsFor(len(root.revoked))
 
 		foreign := gen.DeriveKey("c05/foreign")
 		authentic := map[string][]byte{} // per kind: the CRL as its issuer really signed it
@@ -152,7 +165,7 @@ func TestC05(t *testing.T) {
 			if kind == "root" {
 				issuerCert, key, otherCert, otherKey = p.Root, p.Root.Key, p.Int, p.Int.Key
 			}
-			spec := gen.CRLSpec{Revoked: pl.revoked, RevokedAt: pl.revokedAt}
+			spec := gen.CRLSpec{Revoked: pl.revoked, RevokedAt: pl.revokedAt, Reasons: pl.reasons}
 			authentic[kind] = gen.MakeCRL(issuerCert, key, spec)
 			switch pl.signer {
 			case "other-ca":
@@ -322,6 +335,20 @@ func TestC05(t *testing.T) {
 			return
 		}
 		o3 := w.Options(gen.LvlCRLNoColl, w.NewGetter(), nil)
+		if rapid.Bool().Draw(t, "optionsFromRootOfTrustConfig") {
+			// the same request expressed as a root-of-trust configuration (check_crl without get_collateral)
+			var oc *verify.Options
+			vc := gen.Call(func() error {
+				var err error
+				oc, err = verify.RootOfTrustToOptions(&ccpb.RootOfTrust{Cabundles: []string{string(p.Root.PEM)}, CheckCrl: true, GetCollateral: false})
+				return err
+			})
+			if vc.Accepted() && oc != nil {
+				oc.Getter, oc.Now = o3.Getter, o3.Now
+				o3 = oc
+				gen.Class("crl-without-collateral:via-root-of-trust-config")
+			}
+		}
 		gen.Eval()
 		if v3 := gen.Call(func() error { return verify.RawTdxQuote(w.Raw, o3) }); v3.Accepted() {
 			gen.Fail(t, gen.Violation{Key: "crl-without-collateral-accepted", Oracle: "asking for revocation checks without collateral fetching always fails", Detail: desc, Replay: w.CaseFile(gen.LvlCRLNoColl, nil, nil, nil, "reject")})
